@@ -48,6 +48,7 @@ type socket struct {
 	sendQLen   int
 	recvExpire time.Duration
 	recvq      chan *protocol.Message
+	sizeq      chan struct{} // closed (and replaced) when recvq is replaced
 	ttl        int
 	sync.Mutex
 }
@@ -96,15 +97,22 @@ func (s *socket) RecvMsg() (*protocol.Message, error) {
 	if s.recvExpire > 0 {
 		tq = time.After(s.recvExpire)
 	}
-	recvq := s.recvq // SetOption(ReadQLen) replaces it under the lock
 	s.Unlock()
-	select {
-	case <-s.closeq:
-		return nil, protocol.ErrClosed
-	case <-tq:
-		return nil, protocol.ErrRecvTimeout
-	case m := <-recvq:
-		return m, nil
+	for {
+		s.Lock()
+		recvq := s.recvq // SetOption(ReadQLen) replaces it under the lock
+		sizeq := s.sizeq
+		s.Unlock()
+		select {
+		case <-s.closeq:
+			return nil, protocol.ErrClosed
+		case <-tq:
+			return nil, protocol.ErrRecvTimeout
+		case m := <-recvq:
+			return m, nil
+		case <-sizeq:
+			// the queue was replaced: wait on the new one
+		}
 	}
 }
 
@@ -144,7 +152,11 @@ func (s *socket) SetOption(name string, value interface{}) error {
 			s.Lock()
 			s.recvQLen = v
 			s.recvq = newchan
+			sizeq := s.sizeq
+			s.sizeq = make(chan struct{})
 			s.Unlock()
+			// wake receivers and readers parked on the old queue
+			close(sizeq)
 
 			return nil
 		}
@@ -294,11 +306,14 @@ outer:
 			}
 		}
 		recvq := s.recvq // SetOption(ReadQLen) replaces it under the lock
+		sizeq := s.sizeq
 		s.Unlock()
 		m.Free()
 
 		select {
 		case recvq <- userm:
+		case <-sizeq:
+			userm.Free() // queue replaced while we waited: discard this one
 		case <-p.closeq:
 			userm.Free()
 			break outer
@@ -320,6 +335,7 @@ func NewProtocol() protocol.Protocol {
 		pipes:    make(map[uint32]*pipe),
 		closeq:   make(chan struct{}),
 		recvq:    make(chan *protocol.Message, defaultQLen),
+		sizeq:    make(chan struct{}),
 		sendQLen: defaultQLen,
 		recvQLen: defaultQLen,
 		ttl:      8,
